@@ -7,9 +7,12 @@ REGISTRY = {
         "level": "proof",
         "level_text": "Repository side of the tunable machinery: setup_tunables binds every public tunable attribute to the entry at the documented key (string formula over prefix/name/subtable/attribute, "
                       "loop invariant over dir(cls)), with the descriptor's topic type, exactly one of set/setDefault per tunable according to writeDefault, in a fresh per-instance table; "
-                      "__get__/__set__ go through that table and touch no other entry; key injectivity lemmas; structural check of the type tables.",
+                      "__get__/__set__ go through that table and touch no other entry; key injectivity lemmas; structural check of the type tables. "
+                      "Topic-type resolution: tunable.__init__ / __set_name__ (the type hint wins over the default; an empty sequence needs a hint; errors exactly when no type can be found), "
+                      "_get_topic_type_for_value and the body of _get_topic_type (scalars first, struct, list/Sequence/tuple aliases -> array topics) are verified over uninterpreted type objects.",
         "level_note": "This is the property where the repository code contributes least: 'reads return the latest value from either side', type strings and set/setDefault semantics are ntcore's behaviour "
-                      "(assumed contracts, exercised by the native stand-in with the real ntcore); the typing-based type-hint plumbing (_get_topic_type, tunable.__init__/__set_name__) is bounded-only.",
+                      "(assumed contracts, exercised by the native stand-in with the real ntcore); typing.get_args/get_origin/get_type_hints are assumed contracts, the two lambda constructors in _get_topic_type are abstracted "
+                      "as fresh objects carrying the captured struct type, and callers use _get_topic_type as 'a function of the annotation'.",
         "design_ref": "DESIGN.md section 5 C09",
         "replay": [PY, "native/replay_c09.py"],
         "standins": {"quick": {"bounded: real magic_tunable + real ntcore: keys, type strings, per-instance values, writeDefault vs existing values, interleaved python/NT writes; @feedback keys and types": [PY, "native/replay_c09.py"]}},
@@ -17,11 +20,11 @@ REGISTRY = {
     "C12": {
         "modules": ["smdef"],
         "level": "proof",
-        "level_text": "_State.__init__ (signature validation loop, accepted <=> legal signature and no name collision), _State.__call__ (always IllegalCallError), _StateData.__init__, "
+        "level_text": "_State.__init__ (signature validation loop, accepted <=> legal signature and no name collision), _State.__set_name__, _State.__call__ (always IllegalCallError), _StateData.__init__, "
                       "_get_class_members (most derived definition wins, base-most class's members first) and _build_states (instantiable <=> exactly one first and at most one default state; "
                       "state_names/state_descriptions list exactly the states in member order) are verified for every signature and member table.",
         "level_note": "Reflection (inspect.signature, hasattr(StateMachine, .), __mro__/__dict__, eval, __set_name__ being called at class creation) and dict.update are assumed externals; "
-                      "_State.__set_name__ (alias / non-StateMachine owner) is covered by the bounded native stand-in only.",
+                      "_State.__set_name__ is verified (alias -> InvalidStateName, foreign owner -> TypeError, '<name>_duration' tunable created once) with issubclass uninterpreted.",
         "design_ref": "DESIGN.md section 5 C12",
         "replay": [PY, "native/replay_c12.py"],
         "standins": {"quick": {"bounded: small-scope class definitions through the real decorators/_build_states (forbidden names, signatures, aliasing, inheritance shapes)": [PY, "native/replay_c12.py"]}},
@@ -54,7 +57,8 @@ REGISTRY = {
                       "not-yet-set annotated names are requested; each is filled with the very object under the same name, else under '<component>_<name>' (identity, falsy values included), "
                       "of the annotated type; otherwise MagicInjectError/TypeError.",
         "level_note": "Objects/types are uninterpreted references, isinstance/hasattr uninterpreted predicates (reflection). The MagicRobot side (_collect_injectables, _create_component(s), "
-                      "_setup_vars: what get_type_hints/dir return, ordering 'all injection before any setup()') is reflection-bound: assumed, covered by the bounded native stand-in only.",
+                      "_setup_vars) is verified in contracts/robotinit.py on top of assumed reflection contracts (what typing.get_type_hints / dir(self) / getattr return, ctyp(**kwargs) returns a new object); "
+                      "those assumptions are exercised by the bounded native stand-in.",
         "design_ref": "DESIGN.md section 5 C08",
         "replay": [PY, "native/replay_c08.py"],
         "standins": {"quick": {"bounded: generated robot definitions through the real MagicRobot._create_components (injection targets, identity, errors, setup order, component order)": [PY, "native/replay_c08.py"]}},
@@ -64,6 +68,7 @@ REGISTRY = {
         "level": "proof",
         "level_text": "Site assertions E1-E7 at the state-function call site of StatefulAutonomous.on_iteration (run until tm exceeds start+duration, hand over at the "
                       "expiry instant, initial_call, state_tm >= 0), contracts of next_state/done/on_enable (fresh first state and dashboard-read durations in every period), "
+                      "__register_sd_var_internal (the '<MODE_NAME>\\<name>' dashboard key and the (attribute, key, typed getter, default) registration that on_enable reads), "
                       "for arbitrary state graphs, tm sequences and in-state next_state/done actions (callback havoc under the invariant).",
         "level_note": "Assumed: class/instance getattr/setattr (reflection) and ntcore getters as externals; tm non-decreasing within a period and < 2**32-1; durations >= 0; "
                       "well-formed state graph; one instance at a time (state records are shared class-level objects).",
